@@ -110,6 +110,33 @@ def fn_triples(items):
     return {'n': n, 'nt': nt, 'viol': viol}
 
 
+def fn_triples_n3(items):
+    """item = [i1]: N=3, A = i1-th string (phase +), B over all strings x 4 phases, C over all strings:
+    (A@B)@C == A@(B@C) == reference (phase linearity in A and C is covered by the pair sweep)."""
+    n = nt = 0
+    viol = []
+    N = 3
+    G = ref.all_g(N)
+    Cobjs = [lib.P(g, 0) for g in G]
+    for (i1,) in items:
+        A = lib.P(G[i1], 0)
+        for pb in range(4):
+            for jb in range(len(G)):
+                B = lib.P(G[jb], pb)
+                AB = A @ B
+                eg_ab, ep_ab = ref.mul(G[i1], 0, G[jb], pb)
+                eg, ep = ref.mul(eg_ab[None, :], ep_ab, G, 0)
+                for jc, C in enumerate(Cobjs):
+                    l = AB @ C
+                    r = A @ (B @ C)
+                    n += 3
+                    nt += 1
+                    if (np.asarray(l.g) != eg[jc]).any() or int(l.p) % 4 != ep[jc] or (np.asarray(r.g) != eg[jc]).any() or int(r.p) % 4 != ep[jc]:
+                        viol.append(V('C01/chain/py/N3', [i1], '(%s@%s)@%s -> %s ; A@(B@C) -> %s ; matrices say %s' % (
+                            ref.g_to_str(G[i1], 0), ref.g_to_str(G[jb], pb), ref.g_to_str(G[jc], 0), ref.g_to_str(l.g, l.p), ref.g_to_str(r.g, r.p), ref.g_to_str(eg[jc], ep[jc]))))
+    return {'n': n, 'nt': nt, 'viol': viol}
+
+
 def fn_long_chain(items):
     """item = [N, start, stride]: a walk through the whole group: multiply the running
     product by every element in turn (4*4^N factors), compare with the reference after
@@ -257,10 +284,10 @@ def fn_torch_pairs(items):
 
 
 def legs(tier):
-    Ns = (1, 2, 3) if tier == 'quick' else (1, 2, 3, 4)
+    Ns = (1, 2, 3) if tier == 'quick' else (1, 2, 3, 4, 5)
     out = []
     items = [[N, i] for N in Ns for i in range(4 ** N)]
-    out.append(Leg('pairs', fn_pairs, items, chunk=8 if tier == 'quick' else 4,
+    out.append(Leg('pairs', fn_pairs, items, chunk=8 if tier == 'quick' else 2,
                    src_states=sum(4 * 4 ** N for N in Ns),
                    bound='N in %s: all (4*4^N)^2 ordered pairs' % (Ns,)))
     tn = (1, 2) if tier == 'quick' else (1, 2, 3)
@@ -271,7 +298,10 @@ def legs(tier):
         pass
     out.append(Leg('triples', fn_triples, [it for it in titems if it[0] <= 2], chunk=4,
                    bound='N<=2: all ordered triples (A,B,C) with all phases; results fed back as operands'))
-    lc = [[N, s, st] for N in Ns for s in (0, 5) for st in (1, 3, 7)]
+    if tier != 'quick':
+        out.append(Leg('triples_N3', fn_triples_n3, [[i] for i in range(64)], chunk=1,
+                       bound='N=3: all 64^3 string triples x 4 phases of the middle operand (1 048 576 triples, both bracketings)'))
+    lc = [[N, s, st] for N in (1, 2, 3, 4) for s in (0, 5) for st in (1, 3, 7)]
     out.append(Leg('long_chain', fn_long_chain, lc, chunk=1, bound='walks of 4*4^N factors visiting every element'))
     out.append(Leg('batch_py', fn_batch, [[N, 'py'] for N in ((1, 2) if tier == 'quick' else (1, 2, 3))], chunk=1,
                    bound='acq_mat on all strings, PauliPolynomial@PauliPolynomial on the whole group'))
